@@ -127,7 +127,9 @@ impl<'a> Default for CmpOpts<'a> {
     }
 }
 
-/// ratio tolerance: 2 tol / den + 4 eps
+/// ratio tolerance: 2 tol / den + 4 eps. For a ratio r = num/den whose numerator is not bounded by
+/// the denominator (the perimeter RERs under the known findings can be far outside [0, 1]) the
+/// callers multiply by (1 + |r|): the relative error of the denominator is amplified by |r|.
 pub fn ratio_tol(t: f64, den: f64) -> f64 {
     2.0 * t / den + 4.0 * EPS32
 }
